@@ -414,11 +414,9 @@ def run(ctx):
         raise env.MachineryError(f"registry replay compared only {rsteps} steps")
     ev.cov["registry_behaviours"] = len(rbehs)
     ev.cov["registry_steps_compared"] = rsteps
-    for orec in engine_iteration_order():
-        want = ["send", "recv"] + (["dispatch"] if orec["waiting"] else []) + ["loop", "cleanup", "hook"]
-        if orec["order"] != want:
-            ctx.violation({"clause": "iteration-sub-steps-differ-from-the-model", "datagram_waiting": orec["waiting"]},
-                          {"expected": want, "got": orec["order"]})
+    # the order of the sub-steps in one real pass is recorded as evidence only: the property does not prescribe
+    # it (the replay drives the model's sub-actions itself; whole-engine runs use the real pass, W2.step)
+    ev.cov["real_pass_sub_steps"] = [{"datagram_waiting": o["waiting"], "order": o["order"]} for o in engine_iteration_order()]
     rec = engine_survives_can_handle_exception()
     if rec["escaped"] or not rec["dispatched_after"]:
         ctx.violation({"clause": "handler-exception-stops-the-engine", "where": "can_handle"}, rec)
